@@ -271,7 +271,7 @@ def run_c05(tier, seed, work, ncases):
             src, dst = {}, {}
             t = BASE_T * 10**9
             for i in range(6):
-                for ext in ("bin", "dat", "tar.gz"):
+                for ext in ("bin", "dat", "tar.gz", "r\udce9s", "r\udce8s"):      # the last two: names that are not valid UTF-8 and differ in one byte
                     # ~1 MiB each with 256-byte blocks: thousands of seek+write calls per file, so that the updates really overlap
                     d = rng.bytes(4096) * rng.pick([200, 256, 300]); j = rng.range(1024, len(d) - 1)
                     src[f"p{i}.{ext}"] = F(d, t + 90 * 10**9); dst[f"p{i}.{ext}"] = F(d[:j] + bytes([d[j] ^ 0xFF]) + d[j + 1:], t)
@@ -281,7 +281,7 @@ def run_c05(tier, seed, work, ncases):
             post = snapshot(dst_root, contents); s_ = snapshot(src_root, contents)
             wrong = sorted(r for r, n_ in s_.items() if (post.get(r) or {}).get("cid") != n_["cid"])
             rep.case(("same-stem-siblings", ci), True); rep.tag("targeted.same-stem-siblings")
-            desc = {"case": ci, "seed": seed, "flags": flags, "scenario": "18 files p<i>.{bin,dat,tar.gz}, each with one changed block, updated through the block-delta path with 8 workers", "rc": rc, "stderr": err[-200:]}
+            desc = {"case": ci, "seed": seed, "flags": flags, "scenario": "30 files p<i>.{bin,dat,tar.gz,<non-UTF-8>,<non-UTF-8>}, each with one changed block, updated through the block-delta path with 8 workers", "rc": rc, "stderr": err[-200:]}
             if wrong or rc != 0:
                 rep.oracle_fail("C05/temp-collision/same-stem-siblings", f"concurrent updates of siblings that differ only in their extension interfered: exit {rc}, stale or wrong: {wrong[:4]}", desc)
             left = [r for r in post if r.endswith(".sy.tmp")]
